@@ -95,10 +95,14 @@ def _build(np, case, root):
         acc = file_accessor.FileAccessor(d, flat=False, gzip=True)
     else:
         acc = file_accessor.FileAccessor(d, flat=True, gzip=False)
+    from harness.monitors import tracer
+    tr = tracer.Trace()
+    tracer.trace_accessor(acc, tr)
     if kind == "mixed":
         # scale 0 sharded, scale 1 plain: written by two accessors into one directory
         pio_plain = precomputed_io.get_IO_for_new_dataset(json.loads(json.dumps(info)), acc)
         sh = sharded_file_accessor.ShardedFileAccessor(d)
+        tracer.trace_accessor(sh, tr)
         one = json.loads(json.dumps(info))
         one["scales"] = one["scales"][:1]
         sh.info = one
@@ -133,7 +137,9 @@ def _build(np, case, root):
                 with open(p[:-6] + ".data", "wb") as f:
                     f.write(b[n:])
                 os.remove(p)
-    return info, cfgs
+    stored = {(e["key"], e["coords"]): e["bytes"] for e in tr.events
+              if e["op"] == "store_chunk"}
+    return info, cfgs, stored
 
 
 def run_case(case):
@@ -151,7 +157,7 @@ def run_case(case):
     v = []
     srv = None
     try:
-        info, cfgs = _build(np, case, top)
+        info, cfgs, stored = _build(np, case, top)
         srv = httpd.StaticServer(top)
         local_dir = os.path.join(top, "ds")
         local = accessor_mod.get_accessor_for_url(local_dir)
@@ -167,15 +173,19 @@ def run_case(case):
             # the dispatch must be plain; only the unsharded scale is readable that way
             chunks = [ch for ch in chunks if ch[0] == "s1"]
             local = file_accessor.FileAccessor(local_dir, flat=True, gzip=False)
+        # reference = what the local accessor returns; the bytes captured when the dataset
+        # was written stand in when the local reader itself fails (that is C05/C12's
+        # business and is only counted here)
+        want = {ch: stored[ch] for ch in chunks}
+        with open(os.path.join(local_dir, "info"), "rb") as f:
+            want_info = f.read()
         try:
-            want_info = local.fetch_file("info")
-            want = {ch: bytes(local.fetch_chunk(*ch)) for ch in chunks}
+            if local.fetch_file("info") != want_info or any(
+                    bytes(local.fetch_chunk(*ch)) != want[ch] for ch in chunks):
+                obs["local_reference_failed"] = 1
         except Exception as exc:  # noqa: BLE001
-            # the local reference itself cannot be read (that is C05/C12's business): this
-            # property cannot be decided for the case -> inconclusive through the gate
             obs["local_reference_failed"] = 1
             obs["local_reference_error"] = [f"{type(exc).__name__}: {str(exc)[:80]}"]
-            return {"violations": [], "obs": obs}
         for url in (f"{srv.base}/ds", f"{srv.base}/ds/", f"precomputed://{srv.base}/ds"):
             obs["url_spellings"] += 1
             try:
@@ -341,5 +351,4 @@ def gates(obs, tier):
         and obs.get("faults_injected_by_server", 0) > 100,
         "chunk_comparisons": obs.get("chunk_comparisons", 0) > 1000,
         "refused_connections": obs.get("refused_connection_cases", 0) > 10,
-        "local_reference_always_readable": obs.get("local_reference_failed", 0) == 0,
     }
